@@ -17,6 +17,8 @@ Oracle clauses (the `kind` of a failure names the clause):
   float-parse-independence    row i of str_to_float(batch) == str_to_float([batch[i]])
   float-format-independence   row i of float_to_strings(batch) == float_to_strings([batch[i]])
   float-roundtrip:*           str_to_float(float_to_strings([x])) == [x] exactly
+  row-independent-of-column-length:<func>   row i of a column of N rows == the row converted alone, for every N of the
+                              batch-size ladder (1..40, 2^k-1/2^k/2^k+1, 10^k-1/10^k/10^k+1) and every conversion
   file-* / matrix-*           the same conversions observed through integer / float / integer-list columns of
                               parsed and written files (BED, bedGraph, BED12) and io.matrix_dump; the written
                               text is compared with what the direct call gives for the same value (differential),
@@ -24,6 +26,7 @@ Oracle clauses (the `kind` of a failure names the clause):
 
 A ":raises" suffix means the call had to succeed and raised instead.
 """
+import functools
 import io
 import itertools
 import math
@@ -69,7 +72,9 @@ MANIFEST_TEXT = ('Every value of a 244-element int64 boundary set (0, +-(10^p+d)
                  'integer list of <= 3 core values joined/split, float texts sign x mantissa over {1,5,9,0} of length 1..3 '
                  '(quick) / 1..5 (thorough) with a point at every position x 9/16 exponents up to e+-300 plus 6..17 digit '
                  'mantissas (<= 4 ulp from float(text)), doubles format->parse exactly, and the same conversions through '
-                 'BED / bedGraph / BED12 columns and matrix_dump.')
+                 'BED / bedGraph / BED12 columns and matrix_dump. A batch-size ladder (columns of N rows for N = 1..40 and every power '
+                 'of two up to 2^16 (thorough 2^20) and of ten up to 10^5 (10^6) with both neighbours) compares every row of a long '
+                 'column with the same row converted alone, for every conversion function and the bedGraph value column.')
 MANIFEST_NOTE = ('Trusted: CPython int/float/str, NumPy, npstructures, engine/observe.py. All int64 and all float texts are '
                  'not enumerable; the boundary set and the digit alphabets are stated in the evidence bounds.')
 
@@ -799,6 +804,104 @@ def case_matrix_float(res, ctx, case, m):
     ctx.sample({'section': 'matrix_float', 'matrix': m, 'parsed': got})
 
 
+# ---------------------------------------------------------------------- batch-size ladder
+# The small batches above decide value- and neighbour-dependence; they cannot see a code path that is chosen by the
+# NUMBER of rows (a vectorised path for large columns, a block size).  The ladder runs each conversion on one column of
+# N rows for every N of a stated ladder (every N up to 40, then every power of two and of ten with both neighbours) and
+# compares every row with the same row converted alone.  The rows cycle through a fixed pool, so N alone names the case.
+LADDER_FUNCS = ('ints_to_strings', 'str_to_int', 'float_to_strings', 'str_to_float', 'int_lists_to_strings',
+                'bedgraph_value_column_write')
+
+
+def ladder_sizes(tier):
+    top = 16 if tier == 'quick' else 20
+    ns = set(range(1, 41))
+    for k in range(6, top + 1):
+        ns.update((2 ** k - 1, 2 ** k, 2 ** k + 1))
+    for k in range(2, 6 if tier == 'quick' else 7):
+        ns.update((10 ** k - 1, 10 ** k, 10 ** k + 1))
+    return sorted(ns)
+
+
+@functools.lru_cache(maxsize=None)
+def ladder_pool(func):
+    if func == 'ints_to_strings':
+        return tuple(M.boundary_ints_small())
+    if func == 'str_to_int':
+        out = []
+        for v in M.CORE_INTS_12:
+            for _, t in M.int_spellings(v):
+                if t not in out:
+                    out.append(t)
+        return tuple(out + [str(v) for v in M.boundary_ints_small()])
+    if func in ('float_to_strings', 'bedgraph_value_column_write'):
+        hs = []
+        for x in itertools.chain((1.0 / 3, 2.0 / 3, 0.1 * 3, 39.93057692175728, 123456789.123, 1e16, 1e-5, 5e-10),
+                                 (M.float_value(t) for t in M.FLOAT_CORE_TEXTS), M.structured_doubles()):
+            if M.judgeable_double(x) and float(x).hex() not in hs:
+                hs.append(float(x).hex())
+            if len(hs) >= 257:
+                break
+        return tuple(hs)
+    if func == 'str_to_float':
+        return tuple(M.FLOAT_CORE_TEXTS) + tuple(M.PARTNERS_DEC) + tuple(M.PARTNERS_SCI)
+    if func == 'int_lists_to_strings':
+        return tuple(tuple(r) for r in M.lists_upto(M.CORE_INTS_6, 2))
+    raise ValueError(func)
+
+
+def case_ladder(res, ctx, case, func, n):
+    pool = ladder_pool(func)
+    rows = [pool[i % len(pool)] for i in range(n)]
+    size = '<=40' if n <= 40 else ('41..511' if n < 512 else ('512..65535' if n < 65536 else '>=65536'))
+    feats = {'func': func, 'rows': size}
+    res.transitions += 1
+    if func == 'ints_to_strings':
+        batch, alone = lib_fmt_ints(rows), [ctx.fmt_int(v) for v in pool]
+    elif func == 'str_to_int':
+        batch, alone = lib_parse_ints(rows), [ctx.parse_int(t) for t in pool]
+    elif func == 'float_to_strings':
+        batch, alone = lib_fmt_floats([float.fromhex(h) for h in rows]), [ctx.fmt_float(h) for h in pool]
+    elif func == 'str_to_float':
+        batch, alone = lib_parse_floats(rows), [ctx.parse_float(t) for t in pool]
+    elif func == 'int_lists_to_strings':
+        batch = lib_join_lists(rows)
+        alone = [ctx._get(('jl', r), lambda r=r: ctx._one(lib_join_lists([r]))) for r in pool]
+    else:
+        from bionumpy.datatypes import BedGraph
+        vals = np.array([float.fromhex(h) for h in rows], dtype=np.float64)
+        text = lib_write('bdg', lambda: BedGraph(['c'] * n, np.arange(n), np.arange(n) + 1, vals))
+        if isinstance(text, Raised):
+            batch = text
+        else:
+            lines = text.split('\n')
+            if lines and lines[-1] == '':
+                lines.pop()
+            batch = [ln.split('\t')[-1] for ln in lines] if len(lines) == n else Raised(
+                ValueError('%d lines written for %d rows' % (len(lines), n)))
+        alone = [ctx.fmt_float(h) for h in pool]
+    if n > len(pool):
+        res.nontrivial += 1
+    kind = 'row-independent-of-column-length:' + func
+    if isinstance(batch, Raised):
+        if any(isinstance(a, Raised) for a in alone[:n]):
+            res.extra['ladder: column raises and so does a row alone (judged as singleton)'] += 1
+        else:
+            _fail(res, kind + ':raises', case, feats, 'a column of %d rows' % n, batch)
+        res.outcome('ladder:%s:%s:raises' % (func, size))
+        return
+    same = _same_float if func == 'str_to_float' else (lambda a, b: a == b)
+    for i in range(n):
+        a = alone[i % len(pool)]
+        if isinstance(a, Raised):
+            continue
+        if not same(batch[i], a):
+            _fail(res, kind, case, feats, {'row': i, 'input': rows[i], 'alone': a}, {'row': i, 'in_column_of_%d' % n: batch[i]})
+            res.outcome('ladder:%s:%s:dependent' % (func, size))
+            return
+    res.outcome('ladder:%s:%s:ok' % (func, size))
+
+
 def case_unjudged(res, ctx, case, what):
     """behaviours the statement does not clearly promise: executed, recorded, never judged"""
     if what == 'empty_batches':
@@ -834,6 +937,7 @@ SECTIONS = {
     'matrix_int': lambda res, ctx, case, a: case_matrix_int(res, ctx, case, a),
     'matrix_float': lambda res, ctx, case, a: case_matrix_float(res, ctx, case, a),
     'unjudged': lambda res, ctx, case, a: case_unjudged(res, ctx, case, a),
+    'ladder': lambda res, ctx, case, a: case_ladder(res, ctx, case, a[0], int(a[1])),
 }
 
 
@@ -899,6 +1003,9 @@ def bounds(tier, seed):
                              d['sandwiches_per_short_text'], d['sandwiches_per_long_text'], len(M.FLOAT_CORE_TEXTS)),
         'doubles': 'values of the short texts (mantissa <= %d digits) + 10^k and both neighbours k=-300..300 + 2^k '
                    'k=-996..996 + classic fractions; alone and in every window of three' % d['rt_text_len'],
+        'batch_size_ladder': 'every conversion (%s) on one column of N rows for N in 1..40, 2^k +-1 and 2^k for k=6..%d, 10^k +-1 '
+                             'and 10^k for k=2..%d; rows cycle through a fixed pool' % (', '.join(LADDER_FUNCS), 16 if tier == 'quick' else 20,
+                                                                                     5 if tier == 'quick' else 6),
         'ulp_tolerance': ULP_TOL,
         'core': 'everything above except the extension slices',
         'extension_slice': ('quick: two of the six extra long-mantissa patterns and one eighth of the lazy BED pair files, '
@@ -1057,6 +1164,11 @@ def gen_cases(tier, seed):
     ftx = ('5', '-1.5', '.25', '1e-10', '-9.5e300')
     for m in itertools.product(ftx, repeat=4):
         yield ('matrix_float', ((m[0], m[1]), (m[2], m[3])))
+
+    # ---- batch-size ladder (largest columns spread over the blocks: sizes ascending within each function)
+    for n in ladder_sizes(tier):
+        for func in LADDER_FUNCS:
+            yield ('ladder', (func, n))
 
 
 def shards(tier, seed):
